@@ -90,4 +90,28 @@ theorem C18_compress (d sel fuel : Nat) :
   ⟨cancelSafe_of (C06_compress d sel fuel) (fun w h => (C04_compress d sel fuel w h).1),
    cancelSafe_of (C06_compress d sel fuel) (fun w h => (C04_compress d sel fuel w h).2)⟩
 
+theorem C18_merge (fn : Option Nat) (reverse : Bool) (srcs : List Nat) (fuel : Nat) :
+    ∀ s ∈ srcs, CancelSafe (Impl.merge fn reverse srcs fuel) s :=
+  fun s hs => cancelSafe_of (C06_merge fn reverse srcs fuel) (fun w h => C04_merge fn reverse srcs fuel w h s hs)
+
+theorem C18_sum (start : Option Val) (s fuel : Nat) : CancelSafe (Impl.sum start s fuel) s :=
+  cancelSafe_of (C06_sum start s fuel) (C04_sum start s fuel)
+
+theorem C18_min_max (fn : Option Nat) (isMax : Bool) (d : Option Val) (s fuel : Nat) :
+    CancelSafe (Impl.minmax fn isMax d s fuel) s :=
+  cancelSafe_of (C06_min_max fn isMax d s fuel) (C04_min_max fn isMax d s fuel)
+
+theorem C18_reduce (f : Nat) (ini : Option Val) (s fuel : Nat) : CancelSafe (Impl.reduce f ini s fuel) s :=
+  cancelSafe_of (C06_reduce f ini s fuel) (C04_reduce f ini s fuel)
+
+theorem C18_list (s fuel : Nat) : CancelSafe (Impl.list s fuel) s :=
+  cancelSafe_of (C06_list s fuel) (C04_list s fuel)
+
+theorem C18_tuple (s fuel : Nat) : CancelSafe (Impl.tuple s fuel) s :=
+  cancelSafe_of (C06_tuple s fuel) (C04_tuple s fuel)
+
+theorem C18_nlargest_nsmallest (largest : Bool) (n : Nat) (fn : Option Nat) (s fuel : Nat) :
+    CancelSafe (Impl.nBest largest n fn s fuel) s :=
+  cancelSafe_of (C06_nlargest_nsmallest largest n fn s fuel) (C04_nlargest_nsmallest largest n fn s fuel)
+
 end AsyncVerif
